@@ -143,4 +143,30 @@ def driftWithdraw (now : Int) (b : Bank) (bal : Option Balance) (amount : Int) (
     else if sbPre - sbPost ≠ p.scaled then merr E.DriftScaledBalanceMismatch
     else .ok p
 
+/-! ### Solend: `solend_deposit` / `solend_withdraw` (programs/marginfi/src/instructions/solend/{deposit,withdraw}.rs)
+
+As for Kamino, with one difference on the way out: the obligation's collateral decrease is compared with the collateral given
+up by `assert_within_one_token`, not for equality — one unit more or less is tolerated. -/
+
+def solendDeposit (now : Int) (b : Bank) (bal : Option Balance) (expected pre post : Int) : Res Out :=
+  if post < pre then .error .panic
+  else if !withinOne (post - pre) expected then merr E.SolendDepositFailed
+  else do
+    let r ← increaseBalance b (bal.getD (freshBalance b now)) now (ofInt (post - pre)) .depositOnly
+    .ok (r.1, some r.2, post - pre)
+
+def solendWithdraw (now : Int) (b : Bank) (bal : Option Balance) (amount : Int) (all : Bool)
+    (expectedOf : Int → Int) (obPre obPost vPre vPost : Int) : Res WOut :=
+  match bal with
+  | none => merr E.BankAccountNotFound
+  | some x => do
+    let (b', x', c) ←
+      (if all then withdrawAll b x now
+       else (decreaseBalance b x now (ofInt amount) .withdrawOnly).map fun (p : Bank × Balance) => (p.1, p.2, amount))
+    if obPre < obPost then .error .panic
+    else if !withinOne (obPre - obPost) c then merr E.SolendWithdrawFailed
+    else if vPost < vPre then .error .panic
+    else if !withinOne (vPost - vPre) (expectedOf c) then merr E.SolendWithdrawFailed
+    else .ok { bank := b', bal := x', collateral := c, paid := vPost - vPre }
+
 end Mfi.Venue
